@@ -108,6 +108,13 @@ class Ctx:
             return True
         if z3.is_false(s):
             return False
+        # a condition already decided on this path is not forked again
+        neg = z3.Not(cond)
+        for a in reversed(self.assumptions):
+            if a.eq(cond):
+                return True
+            if a.eq(neg) or (z3.is_not(cond) and a.eq(cond.arg(0))):
+                return False
         # note: the *unsimplified* condition is recorded (z3's simplifier introduces internal
         # symbols such as seq.nth_i / seq.nth_u that other solvers cannot read)
         if self.ex.prune or prune:
